@@ -128,6 +128,20 @@ class Prov:
         tys = self.res.expr_type(fn, e)
         if tys:
             return sorted(tys, key=lambda k: k.qual)[0]
+        # `self.<property>` read inside a method inherited from a base class: the receiver's concrete class is known
+        # (c), so the type is that of what the property of *that* class returns
+        if isinstance(e, ast.Attribute) and isinstance(e.value, ast.Name) and e.value.id == "self" and c is not None and getattr(self, "_tdepth", 0) < 6:
+            p = self.prog.find_method(c, self._alias(c, e.attr) or e.attr)
+            if p is not None and p.is_property:
+                self._tdepth = getattr(self, "_tdepth", 0) + 1
+                try:
+                    for r in ast.walk(p.node):
+                        if isinstance(r, ast.Return) and r.value is not None:
+                            t = self._type(r.value, p, c)
+                            if t is not None:
+                                return t
+                finally:
+                    self._tdepth -= 1
         return None
 
     def eval_property(self, p, base, cls):
